@@ -71,7 +71,7 @@ Section TgtRun.
   Let D_bot' : forall z r, D = z :: r -> bnum z <= start := dlv_bot c canon start merged_end Hchain Hstartblk.
 
   Lemma D_merged b : In b D -> In b merged.
-  Proof. intros H. apply (dlv_in c canon start merged_end b) in H. tauto. Qed.
+  Proof. clear Hto. intros H. apply (dlv_in c canon start merged_end b) in H. tauto. Qed.
 
   Let Hmc : forall b, In b merged -> In b canon.
   Proof. intros b Hb. unfold merged in Hb. apply filter_In in Hb as [Hb _]. exact Hb. Qed.
@@ -107,6 +107,7 @@ Section TgtRun.
     run_files c (run_start c w) merged_end merged forked = (map fev D1, fend) /\
     (fend = fend0 \/ fend = JOther).
   Proof.
+    clear Hto.
     assert (Hcons : forall b, In b D -> bid b = ri (cu_blk cu) -> bnum b = rn (cu_blk cu)).
     { intros b Hb Eb. destruct (bref_eq _ _ HB) as [EBi EBn].
       assert (Hbc : In b canon).
@@ -291,4 +292,20 @@ Proof.
   { split; [|exact Hrest]. rewrite Hhub. apply (hub_ok_run U (j_first c) (j_kept c) Hwfb Hlok l Hl). }
   exact (tgt_nu U c w ps merged_end canon forked cu B start Hid Huniq Hup Hdecl Hchain Hincl Hstartblk eq_refl HW Htip Hmode Hcur Hnu
            Hbundle HBc HB Hbound (or_intror Hlib)).
+Qed.
+
+Lemma c07_seamless_target_full_proof : C07_seamless_target_full.
+Proof.
+  intros U c w ps merged_end canon forked cu B Hwfb Hlok Hhub Hchain Hincl merged Htip
+         Hmode Hcur Hfilter Hstop Hbundle Hbound HBc HB Hlib res start Hstartblk.
+  assert (Hnu : has_nu (j_filter c) (j_custom c) = true) by (unfold has_nu; rewrite Hfilter; reflexivity).
+  destruct (c07_seamless_target_nu_full_proof U c w ps merged_end canon forked cu B Hwfb Hlok Hhub Hchain Hincl Htip
+              Hmode Hcur Hnu Hbundle Hbound HBc HB Hlib Hstartblk) as (c' & Hc' & Hfin).
+  fold merged res in Hc', Hfin.
+  assert (Hall : filter is_nu (fst res) = fst res).
+  { destruct (c13_stream_output_proof c w ps merged_end merged forked (fst res) (snd res)) as [Hp _].
+    - apply surjective_pairing.
+    - apply C06_Lists.filter_all. eapply Forall_impl; [|exact Hp]. cbn beta. intros e He.
+      rewrite is_nu_nu_ev, <- (passes_nu c e Hfilter). exact He. }
+  rewrite Hall in Hc'. exists c'. split; [exact Hc' | exact Hfin].
 Qed.
